@@ -309,7 +309,12 @@ func c08Rel(c *mc.Ctx, cs c08Case) {
 				return
 			}
 		}
-		// whole-alignment reverse complement
+	} else {
+		c.Skip("rel: column-permutation and replication relations are not claimed for the internal-gap counting mode")
+	}
+	// whole-alignment reverse complement (claimed in every mode: reversing the columns turns leading gaps
+	// into trailing ones and keeps internal gaps internal)
+	{
 		rc := make([]string, n)
 		for r := range rc {
 			rc[r] = c08RevComp(cs.Seqs[r])
@@ -317,8 +322,6 @@ func c08Rel(c *mc.Ctx, cs c08Case) {
 		if !cmp("reverse-complement", rc, nil, 1, nil) {
 			return
 		}
-	} else {
-		c.Skip("rel: column relations are not claimed for the internal-gap counting mode")
 	}
 	// every row permutation
 	ok := true
